@@ -83,7 +83,7 @@ PROPERTY_META = {
                 design_ref='DESIGN.md 6 C14'),
     'C15': dict(claimed=True, level='model_checking',
                 text='The real cntgs::detail::uninitialized_construct (the single funnel of every FixedSize/VaryingSize store) is verified per stored type x source value type x source form (pointer, std::array lvalue and rvalue, C array, non-contiguous generated iterator, aliasing-safe path) against: stored item k == StoredType(source item k) evaluated in C on the scalar types for an arbitrary witness k, returned end == target + n items, and an assigns clause that contains only the target items (sources unmodified). emplace_at is proved (unbounded) to pass its arguments to these stores at the right addresses.',
-                note='Bounded: at most 4 items per span (copy loops unwound with unwinding assertions); the memcpy branch is covered by the copy model that is exact at the witness item. For the non-trivial vf::Tracked the FixedSize store is verified to copy-construct every item of an lvalue std::array exactly once without moving from it, and to move from every item of an rvalue array exactly once. A std::reverse_iterator over a pointer is under the same contract for uint32_t (known finding D22: the pinned tree takes it for contiguous and memcpys forward). Class types with converting constructors, std::list, move_iterator and std::deque iterators are not under contract; conversions that are undefined in C++ (float out of range) are excluded by precondition.',
+                note='Bounded: at most 4 items per span (copy loops unwound with unwinding assertions); the memcpy branch is covered by the copy model that is exact at the witness item. For the non-trivial vf::Tracked the FixedSize store is verified to copy-construct every item of an lvalue std::array exactly once without moving from it, and to move from every item of an rvalue array exactly once. A std::reverse_iterator over a pointer is under the same contract for uint32_t (known finding D22: the pinned tree takes it for contiguous and memcpys forward). A class type with a converting constructor from the source type (vf::Wrap <- uint32_t) is under the same contract for all six source forms (known finding D23: the pointer and std::array forms memcpy the source bytes). std::list, move_iterator and std::deque iterators are not under contract; conversions that are undefined in C++ (float out of range) are excluded by precondition.',
                 design_ref='DESIGN.md 6 C15'),
     'C11': dict(claimed=True, level='model_checking',
                 text='operator[] and iterator dereference (both const overloads) are verified to build a reference whose pointers are exactly the stored objects of the indexed element (so every access path denotes the same objects); iterator.data() is the element start; reference = reference is verified per list (trivial fields coalesced into memmove runs, vf::Tracked fields through the value type) against: trivial fields hold the source bytes (witness address), every non-trivial item is copy- resp. move-assigned exactly once from the item at the same place, an lvalue source is not moved from and not written; swap exchanges trivial bytes and swaps non-trivial items through their move operations.',
@@ -171,6 +171,16 @@ def units(tier, seed=0):
     us.append(dict(id='conv.u32_from_u32.reverse_iterator', tu='conv_rev_u32', gen=REV_CXX, template_text=REV_UNIT, vars={}, entry='h_uc', enforce='@F{%s}' % REV_RX, replace=[],
                    props=['C15'], layer='memory.hpp/iterator.hpp', kind='bounded(items <= 4, copy loop unwound)', unwind=6, cdefs=['VF_WINDOWS=1'],
                    config='conversion: u32 <- u32, std::reverse_iterator<const uint32_t*>'))
+    # C15: a class type with a converting constructor as the stored type (source uint32_t): T(x) flips the top bit, so a byte copy is visible
+    wcxx = conv.cxx_tu('u32', 'u32').replace('using T = std::uint32_t;', WRAP_CXX + 'using T = vf::Wrap;', 1)
+    assert 'vf::Wrap' in wcxx
+    for form in conv.FORMS:
+        wtxt = conv.c_unit('u32', 'u32', form)
+        assert wtxt.count('== ((uint32_t)(g_srck))') == 1
+        wtxt = wtxt.replace('== ((uint32_t)(g_srck))', '== (((uint32_t)(g_srck)) ^ 0x80000000u)').replace('stored u32, source u32', 'stored vf::Wrap (class with a converting constructor from uint32_t), source u32')
+        us.append(dict(id='conv.wrap_from_u32.%s' % form, tu='conv_wrap_u32', gen=wcxx, template_text=wtxt, vars={}, entry='h_uc', enforce='@F{%s}' % conv.FORMS[form][0], replace=[],
+                       props=['C15', 'C01'], layer='memory.hpp/typeTraits.hpp', kind='bounded(items <= 4, copy loop unwound)', unwind=6, cdefs=['VF_WINDOWS=1'],
+                       config='conversion: vf::Wrap (converting constructor) <- u32, %s' % form))
     for spec, flags in elem.ELEM_CATALOGUE[tier]:
         for f in flags:
             txt, L = elem.c_unit(spec, f)
@@ -355,6 +365,15 @@ def exc_vec_units(tier):
 EXTRA_REF_LISTS = {'quick': ['p16 p4'], 'thorough': ['p16 p4', 'p8 p8 p4']}
 
 
+WRAP_CXX = '''namespace vf {
+// class type with a converting constructor: same size as the source type and trivially copyable, but T(x) != the bytes of x
+struct Wrap
+{
+    std::uint32_t v;
+    Wrap(std::uint32_t x) noexcept : v(x ^ 0x80000000u) {}
+};
+}  // namespace vf
+'''
 REV_RX = r'cntgs::detail::uninitialized_construct<true, [^,]*, std::reverse_iterator<'
 REV_CXX = '''// units.py: stored type uint32_t, source std::reverse_iterator<const uint32_t*>: forwarding call only
 #include "support.hpp"
